@@ -337,7 +337,11 @@ func oracleC03(r *flatRun) (string, string) {
 			continue
 		}
 		if m := asObj(s.Value); m != nil && isComplexJSON(m) {
-			return "complex schema left inline under " + holderClass(s.Tokens), "/" + strings.Join(s.Tokens, "/") + ": " + mustJSON(s.Value)
+			cls := holderClass(s.Tokens)
+			if clash := opKeyClash(r.Out, s.Tokens); clash != "" {
+				cls = "an operation without operationId whose generated key (method + path) equals that of " + clash
+			}
+			return "complex schema left inline under " + cls, "/" + strings.Join(s.Tokens, "/") + ": " + mustJSON(s.Value)
 		}
 	}
 	nd := r.newDefs()
@@ -639,7 +643,7 @@ func flatCatalogues(c *Ctx) (singles, pairs []gen.Feature) {
 		"collidingImport[sameName]": true, "collidingImport[sameNameSimple]": true, "collidingImport[twoAtOnce]": true, "twoImportsCaseDifferent": true,
 		"selfRecursiveAuxColliding[simple]": true, "auxDiamondColliding[recursive]": true}
 	pairs = gen.Catalogue(three, func(hn string) bool { return rep[hn] }, func(ct gen.Content) bool { return repContent[ct.Label] })
-	repOther := map[string]bool{"twoCollidingImportsSameGeneratedName": true, "twoInlineSameGeneratedName": true, "paramRef": true, "responseRef": true, "pathItemRef": true, "secondPath": true, "unusedDefinition[a/b]": true, "unusedChain3": true,
+	repOther := map[string]bool{"twoPathsManglingAlike": true, "pathPrefixOfAnother": true, "twoCollidingImportsSameGeneratedName": true, "twoInlineSameGeneratedName": true, "paramRef": true, "responseRef": true, "pathItemRef": true, "secondPath": true, "unusedDefinition[a/b]": true, "unusedChain3": true,
 		"preNamed[thingOAIGen]": true, "preNamed[getPOKBody]": true}
 	for _, f := range gen.OtherFeatures(three) {
 		if repOther[f.Label] {
@@ -950,4 +954,39 @@ func Show(prop string, labels []string) {
 			}
 		}
 	}
+}
+
+// opKeyClash: for a schema position under paths/<path>/<method>, tells whether the operation has no operationId
+// and another id-less operation has the same Go-ified "method path" key (the name generated names are built from).
+func opKeyClash(out map[string]any, toks []string) string {
+	if len(toks) < 3 || toks[0] != "paths" {
+		return ""
+	}
+	norm := func(method, p string) string {
+		var sb strings.Builder
+		sb.WriteString(strings.ToLower(method))
+		for _, r := range strings.ToLower(p) {
+			if (r >= 'a' && r <= 'z') || (r >= '0' && r <= '9') {
+				sb.WriteRune(r)
+			}
+		}
+		return sb.String()
+	}
+	paths := asObj(out["paths"])
+	me := asObj(asObj(paths[toks[1]])[toks[2]])
+	if me == nil || me["operationId"] != nil {
+		return ""
+	}
+	for _, p := range h.SortedKeys(paths) {
+		for _, m := range methods7 {
+			op := asObj(asObj(paths[p])[m])
+			if op == nil || (p == toks[1] && m == toks[2]) || op["operationId"] != nil {
+				continue
+			}
+			if norm(m, p) == norm(toks[2], toks[1]) {
+				return "another operation"
+			}
+		}
+	}
+	return ""
 }
